@@ -646,19 +646,13 @@ def dedup_order_by(
         while isinstance(peeled, sqa.UnaryExpression) and peeled.modifier is not None:
             peeled = peeled.element
 
-        # A literal does not influence the ordering, but SQL interprets an integer
-        # literal in ORDER BY as the position of a result column.
-        value = peeled
-        while True:
-            if isinstance(value, sqa.Label):
-                value = value.element
-            elif isinstance(value, sqa.Cast):
-                value = value.clause
-            elif isinstance(value, sqa.BinaryExpression) and value.operator is sqa.sql.operators.collate:
-                value = value.left
-            else:
-                break
-        if isinstance(value, sqa.BindParameter | sqa.sql.elements.Null):
+        # A constant does not influence the ordering, but SQL interprets an integer
+        # literal (SQLite: any constant integer expression) in ORDER BY as the position
+        # of a result column.
+        if not any(
+            isinstance(el, sqa.sql.elements.ColumnClause | sqa.sql.functions.FunctionElement)
+            for el in sqa.sql.visitors.iterate(peeled)
+        ):
             continue
 
         if peeled not in occurred:
@@ -892,7 +886,8 @@ with SqlImpl.impl_store.impl_manager as impl:
     @impl(ops.shift)
     def _shift(x, by, empty_value=None):
         # `by` and `empty_value` are constant parameters and arrive as python values
-        fill = [] if empty_value is None else [sqa.literal(empty_value, type_=x.type, literal_execute=True)]
+        fill_type = None if isinstance(x.type, sqa.types.NullType) else x.type
+        fill = [] if empty_value is None else [sqa.literal(empty_value, type_=fill_type, literal_execute=True)]
         if by >= 0:
             return sqa.func.LAG(x, by, *fill, type_=x.type)
         return sqa.func.LEAD(x, -by, *fill, type_=x.type)
